@@ -401,11 +401,17 @@ def r132(ctx, rep, f, ev, cg, reach, O):
             slf = Agg(ARF + "AlpideReadoutFrame", "AlpideReadoutFrame", {
                 "from_layer": Agg("core::option::Option", "Some", {"0": Agg(LAYER, lay, {})}),
                 "lane_data_frames": Sym("LDF"), "frame_end_mem_pos": Sym("END"), "frame_start_mem_pos": Sym("START")})
-            out = [o for o in ev.collect_ifs(cf, [slf, Sym("FATAL")]) if "cond" in o]
-            flen = "sym(call:core::slice::<impl [T]>::len(sym(payload(sym(FATAL),Some))))"
-            exp = "Ne(sym(call:alloc::vec::Vec::<T, A>::len(sym(LDF))),sym(ite(symc(isSome(sym(FATAL))),sym(Sub(%s,%s)),%s)))" % (hex(cnt), flen, hex(cnt))
-            cmp_ = [o for o in out if ckey(o["cond"]).startswith("Ne(")]
-            ok = len(cmp_) == 1 and ckey(cmp_[0]["cond"]) == exp and not cmp_[0]["guard"]
+            # decided on the two cases of the fatal-lane option (none yet / some list FL)
+            ok = True
+            cmp_ = []
+            for fatal, want in ((Agg("core::option::Option", "None", {}), hex(cnt)),
+                                (Agg("core::option::Option", "Some", {"0": Sym("FL")}), "sym(Sub(%s,sym(call:core::slice::<impl [T]>::len(sym(FL)))))" % hex(cnt))):
+                out = [o for o in ev.collect_ifs(cf, [slf, fatal]) if "cond" in o]
+                exp = "Ne(sym(call:alloc::vec::Vec::<T, A>::len(sym(LDF))),%s)" % want
+                c_ = [o for o in out if ckey(o["cond"]).startswith("Ne(")]
+                cmp_ += c_
+                ok = ok and len(c_) == 1 and ckey(c_[0]["cond"]).replace("alloc::vec::Vec::<T, A>::len(sym(FL))", "core::slice::<impl [T]>::len(sym(FL))") == exp \
+                    and not [g for g in c_[0]["guard"] if g not in ("true", "not false")]
             # grouping only for the inner barrel
             grp = [o for o in out if "Layer::" in ckey(o["cond"]) or ckey(o["cond"]) in ("true", "false")]
             gcalls = []
@@ -436,28 +442,60 @@ def r132(ctx, rep, f, ev, cg, reach, O):
                     arrays.append([e["int"] for e in els])
         rep.check(arrays == O["inner_groups"], "R13.2", "R13.2|groups|table", "inner lane groups %s" % arrays, WA, "inner lane groups are %s, documented %s" % (arrays, O["inner_groups"]))
         prune = {}
+        by_index = False
         for a in tb.arms:
             p = a["pat"]
             while p["k"] == "Deref":
                 p = p["sub"]
             if p["k"] == "Range":
+                # the group a fatal lane is removed from: `groups.get_mut(K)` in the arm, or the arm yields the index K
                 idx = [tb.e(c["args"][1])[1].get("int") for _, c in tb.calls(a["body"]) if (c.get("fn") or "").endswith("<impl [T]>::get_mut")]
+                bn = tb.e(a["body"])[1]
+                while bn["k"] == "Block" and not tb.blocks[bn["b"]]["stmts"] and tb.blocks[bn["b"]].get("expr") is not None:
+                    bn = tb.e(tb.blocks[bn["b"]]["expr"])[1]
+                if not idx and bn["k"] == "Lit" and "int" in bn:
+                    idx = [bn["int"]]
+                    by_index = True
                 prune[(p["lo"], p["hi"] if p["incl"] else p["hi"] - 1)] = idx
         exp = {(g[0], g[-1]): [i] for i, g in enumerate(O["inner_groups"])}
         rep.check(prune == exp, "R13.2", "R13.2|groups|fatal-pruning", "a fatal lane is removed from the group that contains it", WA, "fatal-lane pruning table %s, expected %s" % (prune, exp))
         clos = sorted(p_ for p_ in f.fns if p_.startswith(vg + "::{closure#"))
+        # the closures handed to `retain`: each keeps exactly the lanes != the fatal lane; one per pruning arm, or a
+        # single one applied to the group selected by the arm's index
+        rclos = []
+        for _, c in tb.calls():
+            if (c.get("fn") or "").endswith("::retain"):
+                for a_ in c["args"]:
+                    for _, x in tb.walk(a_):
+                        if x["k"] == "Closure" and x.get("def"):
+                            rclos.append(x["def"])
         retain_ok = 0
-        for c in clos[1:]:
+        for c in rclos:
             ctb = ev.tb(c)
-            ops = [n["op"] for _, n in ctb.walk() if n["k"] == "Binary"]
+            ops = [n["op"] for _, n in ctb.walk() if n["k"] == "Binary"] if ctb is not None else []
             if ops == ["Ne"]:
                 retain_ok += 1
-        rep.check(retain_ok == 3, "R13.2", "R13.2|groups|retain", "pruning keeps every lane != the fatal lane", WA, "retain predicates that are a single `!=`: %d of 3" % retain_ok)
+        want_n = 1 if by_index else len(O["inner_groups"])
+        if by_index:
+            # the selected index is the one used to pick the group that is pruned
+            ixs = [n for _, n in tb.walk() if n["k"] == "Index"]
+            by_ok = len(ixs) == 1 and tb.e(ixs[0]["i"])[1]["k"] in ("Var", "Upvar")
+        else:
+            by_ok = True
+        rep.check(retain_ok == want_n and len(rclos) == want_n and by_ok, "R13.2", "R13.2|groups|retain", "pruning keeps every lane != the fatal lane", WA,
+                  "retain predicates that are a single `!=`: %d of %d (retain sites %d)" % (retain_ok, want_n, len(rclos)))
         b = cg.body(vg)
         names = [cal.split("::")[-1] for bb, t, cal, c in b.calls() if cal]
-        eqs = [(bb, t) for bb, t, cal, c in b.calls() if cal and (cal.endswith("PartialEq>::eq") or cal.endswith("PartialEq::eq") or "PartialEq" in cal and cal.endswith("::eq"))]
+        iseq = lambda cal: cal and (cal.endswith("PartialEq>::eq") or cal.endswith("PartialEq::eq") or "PartialEq" in cal and cal.endswith("::eq"))
+        eqs = [(bb, t) for bb, t, cal, c in b.calls() if iseq(cal)]
         srt = [bb for bb, t, cal, c in b.calls() if cal and cal.endswith("::sort_unstable") or cal and cal.endswith("::sort")]
         ok = len(srt) == 1 and len(eqs) >= 1 and all(b.dominates(srt[0], e[0]) for e in eqs)
+        if len(srt) == 1 and not eqs:
+            # the comparison sits in a closure of an `any(..)` over the groups, called after the sort
+            anys = [bb for bb, t, cal, c in b.calls() if cal and cal.endswith("::any")]
+            ceq = [c_ for c_ in clos if any(iseq(cal) for bb, t, cal, c in cg.body(c_).calls())]
+            ok = len(anys) == 1 and b.dominates(srt[0], anys[0]) and len(ceq) == 1
+            eqs = ceq
         try:
             m = vkey(ev.call_closure(("closure", clos[0], {}), [Sym("ldf")], 0)) if clos else ""
         except Exception as e:  # noqa
@@ -683,26 +721,58 @@ def r132(ctx, rep, f, ev, cg, reach, O):
         b = cg.body(vb)
         pushes = [bb for bb, t, cal, c in b.calls() if cal and cal.endswith("Vec::<T, A>::push") and "arg2" in show_origin(b.origin(t["args"][0]))]
         rep.check(len(pushes) == 1, "R13.2", "R13.2|bc|cross-lane-message", "one message is added for a cross-lane mismatch", "fastpasta/src/analyze/validators/its/alpide.rs")
-    cl = ALP + "check_alpide_data_frame::{closure#0}"
-    tb = ev.tb(cl)
-    if tb is not None:
-        # ValidatedLane constructed only in the branch where analyze returned Ok and the lane is not fatal
-        vl = [x for x, n in tb.walk() if n["k"] == "Adt" and (n.get("adt") or "").endswith("ValidatedLane")]
-        il = [(x, n) for x, n in tb.walk() if n["k"] == "If" and tb.e(n["cond"])[1]["k"] == "Let" and _calls(tb, tb.e(n["cond"])[1]["e"], "analyze_alpide_frame")]
-        ok = False
-        if len(vl) == 1 and len(il) == 1 and il[0][1].get("else") is not None:
-            en = tb.e(il[0][1]["else"])[1]
-            # else → if is_fatal_lane {..} else { push validated }
-            inner_if = [(x, n) for x, n in tb.walk(il[0][1]["else"]) if n["k"] == "If" and _calls(tb, n["cond"], "is_fatal_lane")]
-            ok = len(inner_if) == 1 and inner_if[0][1].get("else") is not None and any(y == vl[0] for y, _ in tb.walk(inner_if[0][1]["else"])) \
-                and not any(y == vl[0] for y, _ in tb.walk(inner_if[0][1]["then"])) and tb.e(il[0][1]["cond"])[1]["pat"].get("vname") == "Err"
-        rep.check(ok, "R13.2", "R13.2|bc|validated-only", "only lanes without errors and not fatal enter the cross-lane comparison", "fastpasta/src/analyze/validators/its/alpide.rs")
-        # statistics summed for every lane
-        sums = [x for x, n in tb.calls() if (n.get("fn") or "").endswith("AlpideStats::sum")]
-        in_branch = any(y == sums[0] for x, n in il for y, _ in list(tb.walk(n["then"])) + (list(tb.walk(n["else"])) if n.get("else") is not None else [])) if sums and il else True
-        rep.check(len(sums) == 1 and not in_branch, "R13.2", "R13.2|stats|every-lane", "each lane's readout-flag counters are added unconditionally", "fastpasta/src/analyze/validators/its/alpide.rs")
+    lce = lane_case_events(ev, f)
+    WA = "fastpasta/src/analyze/validators/its/alpide.rs"
+    if lce is not None:
+        def pushes(case):
+            return [a_[1] for n_, a_, g_ in lce[case] if n_ == "push"]
+        vl = {c_: [x for x in pushes(c_) if x.startswith("ValidatedLane::ValidatedLane(")] for c_ in lce}
+        okv = vl["err"] == [] and vl["fatal"] == [] and len(vl["valid"]) == 1 and "lane_id=sym(LANE_NUMBER)" in vl["valid"][0] and "bunch_counter=sym(VALIDATED_BC)" in vl["valid"][0]
+        rep.check(okv, "R13.2", "R13.2|bc|validated-only", "only lanes without errors and not fatal enter the cross-lane comparison (with their own lane number and validated bunch counter)", WA,
+                  "ValidatedLane pushes per case (decode error / fatal / healthy): %s" % {c_: [x[:90] for x in v_] for c_, v_ in vl.items()})
+        sums = {c_: [g_ for n_, a_, g_ in lce[c_] if n_ == "sum"] for c_ in lce}
+        oks = all(len(v_) == 1 for v_ in sums.values()) and len({v_[0] for v_ in sums.values()}) == 1
+        rep.check(oks, "R13.2", "R13.2|stats|every-lane", "each lane's readout-flag counters are added exactly once in all three cases", WA,
+                  "AlpideStats::sum calls per case: %s" % {c_: len(v_) for c_, v_ in sums.items()})
+        errp = [x for x in pushes("err") if x == "sym(LANE_NUMBER)"]
+        rep.check(len(errp) == 1 and "sym(MSGS)" in pushes("err"), "R13.2", "R13.2|lane-errors|collected", "a lane whose decode failed contributes its messages and its lane number once", WA,
+                  "pushes in the decode-error case: %s" % [x[:60] for x in pushes("err")])
     else:
-        rep.missing("R13.2", cl)
+        rep.bad("R13.2", "R13.2|bc|validated-only", "check_alpide_data_frame cannot be evaluated per lane case", WA)
+
+
+def lane_case_events(ev, f):
+    """Events of the per-lane step of check_alpide_data_frame in each of its three cases — the lane's decode returned
+    Err / returned Ok and the lane is FATAL / returned Ok and is healthy — obtained by evaluating the function (closure
+    or loop form) with `analyze_alpide_frame` and `is_fatal_lane` replaced by the case's outcome.  Returns
+    {case: [(callee, args, argv)]} or None when the function cannot be evaluated."""
+    fn = ALP + "check_alpide_data_frame"
+    cands = [q for q in [fn] + sorted(q for q in f.fns if q.startswith(fn + "::{closure")) if ev.tb(q) is not None]
+    if fn not in f.fns or not cands:
+        return None
+    cases = {"err": (Agg("core::result::Result", "Err", {"0": Sym("MSGS")}), False), "fatal": (Agg("core::result::Result", "Ok", {"0": ()}), True),
+             "valid": (Agg("core::result::Result", "Ok", {"0": ()}), False)}
+    out = {}
+    for case, (ares, fat) in cases.items():
+        ev.call_hooks = [(lambda fn_, res: (res or fn_).endswith("::analyze_alpide_frame"), lambda n, a, ares=ares: ares),
+                         (lambda fn_, res: (res or fn_).endswith("::is_fatal_lane"), lambda n, a, fat=fat: Cond("true" if fat else "false")),
+                         (lambda fn_, res: (res or fn_).endswith("::validated_bc"), lambda n, a: Agg("core::option::Option", "Some", {"0": Sym("VALIDATED_BC")})),
+                         (lambda fn_, res: (res or fn_).endswith("LaneDataFrame::lane_number"), lambda n, a: Sym("LANE_NUMBER"))]
+        ev.watch = lambda c: c.endswith("::push") or c.endswith("AlpideStats::sum")
+        evs = []
+        try:
+            for c in cands:
+                for o in ev.collect_ifs(c, [Sym("A%d" % i) for i in range(len(ev.tb(c).params))]):
+                    if "call" in o and not o.get("closure") and not any(x in ("false", "not true") for x in o["guard"]):
+                        evs.append((o["call"].split("::")[-1], o["args"], tuple(g for g in o["guard"] if g not in ("true", "not false"))))
+        except Unsupported:
+            return None
+        finally:
+            ev.call_hooks = []
+            ev.watch = None
+        out[case] = evs
+    return out
+
 
 
 def _bind_params(ev, tb, args):
@@ -756,15 +826,15 @@ def r133(ctx, rep, f, ev, cg, reach, O):
         v = "unevaluable %s" % e
     rep.check(v == "sym(an.lane_status_fatal)", "R13.3", "R13.3|fatal|accessor", "is_fatal_lane() returns the flag", WL, "is_fatal_lane returns %s" % v)
     # fatal lanes list: pushed with the lane number under is_fatal_lane
-    cl = ALP + "check_alpide_data_frame::{closure#0}"
-    if cl in f.fns:
-        b = cg.body(cl)
-        pushes = [(bb, t) for bb, t, cal, c in b.calls() if cal and cal.endswith("Vec::<T, A>::push")]
-        fp = [p_ for p_ in pushes if "fatal_lanes" in show_origin(b.origin(p_[1]["args"][0])) or "unwrap" in show_origin(b.origin(p_[1]["args"][0]))]
-        isf = [bb for bb, t, cal, c in b.calls() if cal == LA + "is_fatal_lane"]
-        ok = len(isf) == 1 and len(fp) == 1 and b.dominates(isf[0], fp[0][0]) and "lane_number" in show_origin(b.origin(fp[0][1]["args"][1]))
-        rep.check(ok, "R13.3", "R13.3|fatal|collected", "a lane number joins the fatal list only after is_fatal_lane()", "fastpasta/src/analyze/validators/its/alpide.rs",
-                  "fatal-lane pushes: %s" % [show_origin(b.origin(p_[1]["args"][1]))[:80] for p_ in fp])
+    lce = lane_case_events(ev, f)
+    if lce is not None:
+        fatal_only = {c_: [a_[1] for n_, a_, g_ in lce[c_] if n_ == "push" and a_[1] == "sym(LANE_NUMBER)"] for c_ in lce}
+        ok = len(fatal_only["fatal"]) == 1 and fatal_only["valid"] == [] and len(fatal_only["err"]) == 1 and \
+            [a_[0] for n_, a_, g_ in lce["fatal"] if n_ == "push"] != [a_[0] for n_, a_, g_ in lce["err"] if n_ == "push" and a_[1] == "sym(LANE_NUMBER)"]
+        rep.check(ok, "R13.3", "R13.3|fatal|collected", "a lane number joins the fatal list exactly when its decode succeeded and is_fatal_lane() holds", "fastpasta/src/analyze/validators/its/alpide.rs",
+                  "lane-number pushes per case: %s" % {c_: [(a_[0][:50], a_[1][:30]) for n_, a_, g_ in lce[c_] if n_ == "push"] for c_ in lce})
+    else:
+        rep.bad("R13.3", "R13.3|fatal|collected", "check_alpide_data_frame cannot be evaluated per lane case", "fastpasta/src/analyze/validators/its/alpide.rs")
     # add_fatal_lanes single caller with the 4th result
     afl = RFV + "add_fatal_lanes"
     cs = sorted(set(c for c, *_ in cg.call_sites(lambda p_: p_ == afl) if c in reach))
